@@ -258,3 +258,88 @@ def lean_gate(chk, prop):
         chk.violation("lean-audit", "Lean audit failed: " + "; ".join(audit["problems"])[:300],
                       "\n".join(audit["problems"]), found_input=False)
     return audit
+
+
+# --------------------------------------------------------------------------- generic differential run
+
+def run_differential(chk, prop, harness, tier, sanitize=False, extra_args=(), ctx_prefixes=("cfg",), max_report=4,
+                     compare=None, timeout=3000):
+    """Pattern used by most properties: the harness (real STIR code) enumerates / generates inputs,
+    writes one operation per line to <ops> and its own answer per line to <impl> (and property-oracle
+    verdicts to <impl>.oracle); the Lean driver answers the same <ops>; the two answer streams are compared
+    line by line (`compare(op, impl, model) -> bool` may implement a tolerance).  Returns a stats dict."""
+    exe = compile_harness(harness, sanitize=sanitize)
+    tag = "%s_%s" % (prop.lower(), tier)
+    ops = os.path.join(OUT, tag + ".ops")
+    impl = os.path.join(OUT, tag + ".impl")
+    model = os.path.join(OUT, tag + ".model")
+    for f in (ops, impl, model, impl + ".oracle"):
+        if os.path.exists(f):
+            os.remove(f)
+    env = dict(os.environ, STIR_CONFIG_DIR=os.path.join(REPO, "src", "config"),
+               ASAN_OPTIONS="detect_leaks=0:exitcode=66", UBSAN_OPTIONS="exitcode=66")
+    try:
+        r = sh([exe, str(seed()), tier, ops, impl] + list(extra_args), env=env, timeout=timeout)
+    except subprocess.TimeoutExpired:
+        chk.violation("harness-timeout", "harness %s timed out" % harness, "timeout", found_input=False)
+        return dict(ops=0, mismatches=0)
+    if r.returncode != 0:
+        chk.violation("harness-abort", "harness %s aborted (exit %d): the implementation crashed or a sanitizer fired" % (harness, r.returncode),
+                      r.stdout[-4000:], found_input=True)
+    if not os.path.exists(ops):
+        return dict(ops=0, mismatches=0)
+    rc, err = run_driver(prop, ops, model)
+    ol = open(ops).read().splitlines()
+    il = open(impl).read().splitlines()
+    ml = open(model).read().splitlines()
+    stats = dict(ops=len(ol), mismatches=0, kinds={}, samples=[])
+    ctx = None
+    reported = 0
+    distinct = set()
+    for k, op in enumerate(ol):
+        kind = op.split(" ", 1)[0]
+        stats["kinds"][kind] = stats["kinds"].get(kind, 0) + 1
+        if kind in ctx_prefixes:
+            ctx = op
+        a = il[k] if k < len(il) else "<missing>"
+        b = ml[k] if k < len(ml) else "<missing>"
+        distinct.add(op)
+        same = (a == b) if compare is None else compare(op, a, b)
+        if not same:
+            stats["mismatches"] += 1
+            if reported < max_report:
+                reported += 1
+                text = "# seed=%d tier=%s\n%s\n%s\n# implementation: %s\n# model         : %s\n" % (seed(), tier, ctx or "", op, a, b)
+                chk.violation("corr:%s:%s" % (ctx, op), "implementation and Lean model disagree on `%s` (context `%s`): impl=%s model=%s" % (op, ctx, a[:80], b[:80]), text)
+    stats["distinct"] = len(distinct)
+    # oracle verdicts
+    of = impl + ".oracle"
+    stats["oracle_checks"], stats["oracle_fails"] = 0, 0
+    if os.path.exists(of):
+        for l in open(of).read().splitlines():
+            if l.startswith("ORACLE-FAIL"):
+                stats["oracle_fails"] += 1
+                if stats["oracle_fails"] <= max_report:
+                    chk.violation("oracle:" + l[:160], "property oracle fails on the implementation: " + l[:220], "# seed=%d tier=%s\n%s\n" % (seed(), tier, l))
+            elif l.startswith("ORACLE-DONE"):
+                m = re.search(r"checks=(\d+)", l)
+                stats["oracle_checks"] = int(m.group(1)) if m else 0
+            elif l.startswith("KNOWN-CANDIDATE"):
+                # "KNOWN-CANDIDATE <key> <description>": a failing oracle case with a stable key (may be listed in known_findings.txt)
+                parts = l.split(" ", 2)
+                chk.violation(parts[1], parts[2] if len(parts) > 2 else parts[1], "# seed=%d tier=%s\n%s\n" % (seed(), tier, l))
+    k = len(ol)
+    stats["samples"] = [ol[j] + "  =>  " + (il[j] if j < len(il) else "") for j in sorted({0, k // 3, k // 2, (2 * k) // 3, k - 1}) if 0 <= j < k][:6]
+    return stats
+
+
+def standard_coverage(chk, stats, rule, extra=None):
+    chk.coverage.update(dict(evaluations=stats.get("ops", 0) + stats.get("oracle_checks", 0),
+                             distinct_nontrivial=stats.get("distinct", 0),
+                             rule=rule, samples=stats.get("samples", [])[:6] or ["(none)"],
+                             operation_histogram=stats.get("kinds", {}),
+                             correspondence_mismatches=stats.get("mismatches", 0),
+                             oracle_checks=stats.get("oracle_checks", 0), oracle_fails=stats.get("oracle_fails", 0),
+                             traces_validated_against_impl=stats.get("ops", 0) - stats.get("mismatches", 0)))
+    if extra:
+        chk.coverage.update(extra)
